@@ -17,7 +17,7 @@ KAPPA_HARD = 1e11          # beyond this nothing numerical is judged
 BUD = 1e-12                # ≈ 4500 eps: budget per unit of (scale · κ)
 
 
-def gen_model(ctx, rng, bases=None, opts=None, want_tall=True, max_modes=None, force_graded=False, force_dtype=None):
+def gen_model(ctx, rng, bases=None, opts=None, want_tall=True, max_modes=None, force_graded=False, force_dtype=None, force_localized=False):
     """A fitted SSPOR with its configuration. Returns dict or None (fit rejected)."""
     from pysensors.reconstruction import SSPOR
     basis = rng.choice(bases or models.BASIS_KINDS)
@@ -25,6 +25,13 @@ def gen_model(ctx, rng, bases=None, opts=None, want_tall=True, max_modes=None, f
     nf = rng.randint(ne if want_tall else 1, ctx.scale(9, 12))
     X = np.array([[rng.randint(-6, 6) for _ in range(nf)] for _ in range(ne)], dtype=float)
     # dtypes: training data are often integer arrays (counts, raw images); the Identity basis keeps that dtype
+    if (force_localized or rng.random() < 0.15) and nf >= 4:
+        # localised modes: every training example lives on a few sensors only (most sensor rows of the basis are then zero or
+        # dependent, so WHICH rows lead the ranking matters a great deal)
+        X = np.zeros((ne, nf))
+        for i in range(ne):
+            for c in rng.sample(range(nf), rng.randint(1, min(3, nf))):
+                X[i, c] = rng.choice([-3, -2, -1, 1, 2, 3])
     dt = force_dtype or rng.choice(["float64"] * 6 + ["int64", "int32", "uint8"])
     graded = False
     if dt == "uint8":
@@ -58,7 +65,12 @@ def gen_model(ctx, rng, bases=None, opts=None, want_tall=True, max_modes=None, f
         costs = np.array([rng.randint(0, 12) / 2 for _ in range(nf)])
         opt = type(opt)(sensor_costs=costs)
         desc["costs"] = costs.tolist()
-    model = SSPOR(basis=models.make_basis(basis, nm), optimizer=opt)
+    # an explicit sensor count smaller than the number of modes at construction (raised later through the setters by the checks)
+    ctor_ns = None
+    if force_localized or rng.random() < 0.3:
+        ctor_ns = rng.randint(1, max(1, (nm or ne) - 1))
+    desc["ctor_n_sensors"] = ctor_ns
+    model = SSPOR(basis=models.make_basis(basis, nm), optimizer=opt, n_sensors=ctor_ns)
     # Histories: the properties hold for a model at every point of its life, so most models are USED before the
     # fit that is judged (fitted on other data, asked for predictions / errors with several sensor counts, re-ranked
     # with fewer modes).  Anything cached by those calls must not leak into the judged state.
@@ -87,6 +99,8 @@ def gen_model(ctx, rng, bases=None, opts=None, want_tall=True, max_modes=None, f
         except (ValueError, TypeError):
             pass
         model = _reset_n_sensors(model)
+        if ctor_ns is not None:
+            model.n_sensors = ctor_ns
     # the caller's training array: any memory layout, and the caller goes on using (overwriting) it after the fit –
     # a fitted model is a function of the data at fit time
     layout = rng.choice(["C", "C", "F", "T", "strided"])
@@ -136,7 +150,7 @@ def rebuild(desc):
     opt = H.make_optimizer(desc["opt"])
     if desc.get("costs") is not None:
         opt = CCQR(sensor_costs=np.array(desc["costs"]))
-    model = SSPOR(basis=models.make_basis(desc["basis"], desc["n_modes"]), optimizer=opt)
+    model = SSPOR(basis=models.make_basis(desc["basis"], desc["n_modes"]), optimizer=opt, n_sensors=desc.get("ctor_n_sensors"))
     X = np.array(desc["X"], dtype=float).astype(desc.get("dtype", "float64"))
     if desc.get("X0") is not None:
         X0 = np.array(desc["X0"], dtype=float).astype(desc.get("dtype", "float64"))
@@ -157,6 +171,8 @@ def rebuild(desc):
         except ValueError:
             pass
         model = _reset_n_sensors(model)
+        if desc.get("ctor_n_sensors") is not None:
+            model.n_sensors = desc["ctor_n_sensors"]
     Xin = models.laid_out(X, desc.get("layout", "C"))
     model.fit(Xin, quiet=True, seed=desc["seed"])
     if desc.get("update_modes"):
